@@ -43,6 +43,7 @@ def gen(rng, kind):
         if cfg["obs"][k] is not None and cfg["oslice"][k]:
             w = cfg["oslice"][k][1] - cfg["oslice"][k][0]
             cfg["obs"][k]["vals"] = [[float(rng.randint(-2, 2)) for _ in range(w)] for _ in range(n)]
+    cfg["via_call"] = rng.random() < 0.5
     cfg["statio_unknowns"] = []
     if kind == "nonstatio" and nu >= 2 and rng.random() < 0.5:
         # a mixed system: some unknowns (the first one among them) are stationary fields u_k(x); they have no initial condition
@@ -164,7 +165,7 @@ def build(cfg):
 def evaluate(cfg):
     jax, jnp, np, eqx, jinns = jx()
     us, PD, L, batch, singles, obs = build(cfg)
-    tot, terms = L.evaluate(PD, batch)
+    tot, terms = (L if cfg.get("via_call") else L.evaluate)(PD, batch)       # the loss object is callable: same thing
     sing = {}
     for k, S in singles.items():
         b = jinns.data.append_obs_batch(batch, None if obs is None else obs[k])
